@@ -24,7 +24,8 @@ type step struct {
 	gas, cost uint64
 	slen      int
 	st        [7]common.Hash // st[0] = top of stack (before the op executes)
-	mem       []byte         // LOG data / CREATE init code / RETURN-REVERT data
+	mem       []byte         // LOG data / CREATE init code / RETURN-REVERT data / CALL* input
+	memLen    int            // memory size when the step was captured (after the op's own expansion)
 	addr      common.Address // contract.Address(): the storage context
 	entry     bool           // first step after the depth increased
 	caller    common.Address
@@ -109,9 +110,14 @@ func (t *tracer) CaptureState(env *vm.EVM, pc uint64, op vm.OpCode, gas, cost ui
 		s.err = err.Error()
 		return nil
 	}
+	s.memLen = memory.Len()
 	// memory regions the oracle needs
 	offIdx := -1
 	switch {
+	case op == vm.CALL, op == vm.CALLCODE:
+		offIdx = 3
+	case op == vm.DELEGATECALL, op == vm.STATICCALL:
+		offIdx = 2
 	case op >= vm.LOG0 && op <= vm.LOG4, op == vm.RETURN, op == vm.REVERT:
 		offIdx = 0
 	case op == vm.CREATE, op == vm.CREATE2:
@@ -262,6 +268,7 @@ func (k fkind) String() string {
 func (k fkind) isCreate() bool { return k == kCreate || k == kCreate2 }
 
 type result struct {
+	exact    bool // returned is exact although no step of the callee was traced (native contracts)
 	ok       bool
 	hard     bool // failure that consumes all gas
 	returned uint64
@@ -287,6 +294,11 @@ type pending struct {
 	res         *result
 	ran         bool
 	valueMoved  bool
+	// native contract callee (no code, no steps): its specification and the exact gas handed to it
+	native        int
+	spec          nativeSpec
+	supplied      uint64
+	suppliedKnown bool
 }
 
 type frame struct {
@@ -332,21 +344,24 @@ type stats struct {
 	sstores, codeStoreOOG, readsChecked     int
 	callAfterCreate, recreateAfterDestroyed int
 	resurrections                           int
+	nativeCalls, nativeOK, nativeFail       int
+	nativeFailValue, nativeOpaque           int
 }
 
 type oracle struct {
 	// carry: model the known defect instead of the statement (used only to attribute a violation precisely)
-	carry   bool
-	gone    map[common.Address]bool // accounts removed at the end of an earlier transaction (self-destructed)
-	w       *world
-	seen    map[common.Address]bool
-	touched map[common.Address]map[common.Hash]bool
-	labels  map[common.Address]string
-	steps   []step
-	open    []*frame
-	st      stats
-	uses    []siteUse
-	txi     int
+	carry    bool
+	gone     map[common.Address]bool // accounts removed at the end of an earlier transaction (self-destructed)
+	w        *world
+	seen     map[common.Address]bool
+	touched  map[common.Address]map[common.Hash]bool
+	labels   map[common.Address]string
+	steps    []step
+	topInput []byte
+	open     []*frame
+	st       stats
+	uses     []siteUse
+	txi      int
 }
 
 func (o *oracle) name(ad common.Address) string {
@@ -421,9 +436,13 @@ func u64Hash(v uint64) common.Hash {
 func addrHash(a common.Address) common.Hash { return common.BytesToHash(a[:]) }
 
 // beginTx prepares the pending message call of the transaction itself.
-func (o *oracle) beginTx(to common.Address, value, gas uint64) *pending {
+func (o *oracle) beginTx(to common.Address, value, gas uint64, input []byte) *pending {
 	p := &pending{kind: kCall, idx: -1, top: true, keep: 0, keepKnown: true, maxSupplied: gas, value: value,
 		ctxAddr: to, ctxCaller: originAddr, ctxValue: value, codeAddr: to}
+	if n := nativeOf(to); n != 0 {
+		p.native, p.spec, p.supplied, p.suppliedKnown = n, specNative(n, input), gas, true
+		o.labels[to] = fmt.Sprintf("native%d", n)
+	}
 	o.prepare(p, originAddr, 0)
 	return p
 }
@@ -583,6 +602,28 @@ func (o *oracle) beginCall(f *frame, i int) (*pending, *viol) {
 		}
 		p.codeAddr = p.ctxAddr
 	}
+	if n := nativeOf(p.codeAddr); n != 0 && !p.kind.isCreate() {
+		p.native, p.spec = n, specNative(n, s.mem)
+		o.labels[p.codeAddr] = fmt.Sprintf("native%d", n)
+		// gas handed over = cost - fixed part - value surcharge - new-account surcharge (+ stipend); exact only
+		// if the step did not also pay for memory expansion
+		prevMem := 0
+		if f.last >= 0 {
+			prevMem = o.steps[f.last].memLen
+		}
+		fixed := params.CallGas
+		var stipend uint64
+		if (p.kind == kCall || p.kind == kCallCode) && s.st[2] != (common.Hash{}) {
+			fixed += params.CallValueTransferGas
+			stipend = params.CallStipend
+			if ta := o.acct(p.codeAddr); p.kind == kCall && ta.nonce == 0 && ta.bal == 0 && len(ta.code) == 0 {
+				fixed += params.CallNewAccountGas
+			}
+		}
+		if s.memLen == prevMem && s.cost >= fixed {
+			p.supplied, p.suppliedKnown = s.cost-fixed+stipend, true
+		}
+	}
 	o.prepare(p, f.addr, f.depth)
 	if p.kind.isCreate() {
 		p.code = s.mem
@@ -727,6 +768,32 @@ func (o *oracle) resolve(p *pending, word common.Hash, gasAfter uint64, at strin
 		switch {
 		case p.pre != "":
 			r = &result{ok: false, why: "fails before execution: " + p.pre}
+		case p.native != 0:
+			o.st.nativeCalls++
+			switch {
+			case !p.spec.known || !p.suppliedKnown:
+				// outcome only observed: state effects follow what the caller sees, gas is only bounded
+				r = &result{ok: word != (common.Hash{}), why: fmt.Sprintf("native contract %d, outcome not predicted", p.native)}
+				o.st.nativeOpaque++
+			case !p.spec.valid:
+				r = &result{exact: true, hard: true, why: fmt.Sprintf("native contract %d rejects its %d byte input", p.native, len(o.inputOf(p)))}
+			case p.supplied < p.spec.gas:
+				r = &result{exact: true, hard: true, why: fmt.Sprintf("native contract %d needs %d gas, is given %d", p.native, p.spec.gas, p.supplied)}
+			default:
+				r = &result{exact: true, ok: true, returned: p.supplied - p.spec.gas, why: fmt.Sprintf("native contract %d uses %d of %d gas", p.native, p.spec.gas, p.supplied)}
+			}
+			if r.ok {
+				o.st.nativeOK++
+			} else {
+				// a failed native frame is a failed frame: value transfer and account creation are undone
+				o.w = p.snap
+				o.st.nativeFail++
+				o.st.failedFrames++
+				if p.valueMoved {
+					o.st.nativeFailValue++
+					o.st.failedWithWrites++
+				}
+			}
 		case len(p.code) == 0:
 			r = &result{ok: true, why: "no code"}
 			o.st.stepless++
@@ -753,7 +820,7 @@ func (o *oracle) resolve(p *pending, word common.Hash, gasAfter uint64, at strin
 		return o.fail("outcome-mismatch", "%v at %s: the frame %s (%s), so the caller must see %x; it sees %x (%s)",
 			p.kind, o.where(p.idx), map[bool]string{true: "succeeds", false: "fails"}[r.ok], r.why, want, word, at)
 	}
-	if p.ran {
+	if p.ran || r.exact {
 		if gasAfter != p.keep+r.returned {
 			return o.fail("gas-mismatch", "%v at %s: caller keeps %d, callee returns %d (%s), caller must continue with %d; it has %d (%s)",
 				p.kind, o.where(p.idx), p.keep, r.returned, r.why, p.keep+r.returned, gasAfter, at)
@@ -769,6 +836,13 @@ func (o *oracle) resolve(p *pending, word common.Hash, gasAfter uint64, at strin
 		}
 	}
 	return nil
+}
+
+func (o *oracle) inputOf(p *pending) []byte {
+	if p.idx >= 0 && p.idx < len(o.steps) {
+		return o.steps[p.idx].mem
+	}
+	return o.topInput
 }
 
 // run processes the whole trace of one transaction.
